@@ -46,6 +46,19 @@ CHECKS = {
         "stub": "byte transport (sim/simnet), the clients (scripted peers using the real packet codec), probeBackend/faultConn pass-through wrappers, wall clock (virtual)",
         "assumptions": ["peers acknowledge promptly and keep reading", "queues are large enough that MemoryBackend never reports ErrQueueFull in strict mode"],
     },
+    "C20": {
+        "level": "exploration",
+        "level_text": "Seeded packet sequences (length <= 8, all 14 types, arbitrary ids, 1-8 filters, pipelined or not, any fragmentation) towards the real broker; the first-packet position is enumerated over all 14 types x {no, valid, wrong} credentials by the seed. A connection automaton written from the MQTT text judges the replies the peer saw at quiescence and the backend hooks that ran for the connection. Sampling with an enumerated first-packet matrix, not proof.",
+        "level_note": "Trusts the automaton in worlds/brk/c20.go, the simrt overlay and synctest quiescence; the peer is a scripted state machine using the real codec.",
+        "technique": "deterministic simulation: scripted peer over simulated link + connection-protocol reference automaton + request/response correlation at quiescence",
+        "quick": {"runs": 20000, "budget_s": 45, "minimise_s": 40},
+        "thorough": {"runs": 1500000, "budget_s": 1000, "minimise_s": 150},
+        "rule": "seed -> (even seeds: accepted CONNECT first; odd seeds enumerate first packet type x credential variant, then 0-7 further packets biased to SUBSCRIBE/UNSUBSCRIBE/PINGREQ/PUBLISH, pipelined or settled, chunking); one plan in ten is silence (connect timeout). Non-trivial = a first-packet/refusal/timeout case or >=1 request or an out-of-protocol packet; distinct = distinct event-log fingerprints",
+        "probes": ["first_Connect", "first_Publish", "first_Subscribe", "first_silence", "auth_refused", "fatal_Connect", "fatal_Disconnect", "fatal_Pingresp", "requests"],
+        "real": "broker.Engine (Accept loop, connect timeout), broker.Client, broker.MemoryBackend, transport.NetConn/BaseConn, packet.Stream - unmodified",
+        "stub": "byte transport (sim/simnet), the client (scripted peer), probeBackend/faultConn pass-through wrappers, virtual clock",
+        "assumptions": ["packets are well-formed (malformed input is C14's subject)"],
+    },
     "C05": {
         "level": "exploration",
         "level_text": "Seeded search over operation histories and over interleavings of 2-16 caller goroutines pre-empted at every lock acquisition by the seeded runtime; every query compared with a map model after every mutation, concurrent histories checked for linearizability with porcupine, result slices checked for later modification, same binary under the race detector. Sampling, not proof.",
